@@ -153,3 +153,24 @@ package jobqueuecontroller
 //@   loop 1 invariant [C20] all-writes-ok-so-far: forall k int :: old(jwN) <= k && k < jwN ==> jwOK[k]
 //@   ensures [C05,C06] log-append-only: jwN >= old(jwN) && (forall i int :: i < old(jwN) ==> jwKind[i] == old(jwKind[i]) && jwObj[i] == old(jwObj[i]) && jwOK[i] == old(jwOK[i]))
 //@   ensures [C20] failed-write-is-reported: (exists k int :: old(jwN) <= k && k < jwN && !jwOK[k]) ==> result != nil
+
+// ---- reconciler_independent.go: Jobs without a JobConfig -----------------------------------------------------------------
+
+//@ func IndependentReconciler.enqueueAfter
+//@   tags C07
+//@   requires r != nil && rj != nil
+//@   modifies wakeN, wakeKey, wakeAfter
+//@   ensures [C07] arms-wakeup: wakeN == old(wakeN) + 1 && wakeKey[old(wakeN)] == nsname(rj.Namespace, rj.Name) && wakeAfter[old(wakeN)] == max(1000000000, duration)
+
+//@ func IndependentReconciler.SyncOne
+//@   tags C07, C20
+//@   requires r != nil && typeis(r.client, *JobControl) && unbox(r.client, *JobControl) != nil
+//@   modifies jwN, jwKind, jwObj, jwOK, clock, wakeN, wakeKey, wakeAfter
+//@   ensures [C07] at-most-one-write: old(jwN) <= jwN && jwN <= old(jwN) + 1
+//@   ensures [C07] start-only-queued-and-due: jwN == old(jwN) + 1 ==> (exists rj *execution.Job :: rj != nil && rj.Namespace == namespace && rj.Name == name
+//@        && job.IsQueued(rj) && isStartWrite(old(jwN), rj) && !(hasStartAfter(rj) && startAfterNs(rj) > clock)
+//@        && ns(jwObj[old(jwN)].Status.StartTime.Time) == clock && (!hasStartAfter(rj) || ns(jwObj[old(jwN)].Status.StartTime.Time) >= startAfterNs(rj)))
+//@   ensures [C07] waiting-arms-wakeup: wakeN <= old(wakeN) + 1 && (wakeN == old(wakeN) + 1 ==> jwN == old(jwN) && result == nil
+//@        && wakeKey[old(wakeN)] == nsname(namespace, name) && wakeAfter[old(wakeN)] >= 1000000000)
+//@   ensures [C20] failed-write-is-reported: jwN == old(jwN) + 1 ==> (result == nil) == jwOK[old(jwN)]
+//@   ensures [C07] log-append-only: forall i int :: i < old(jwN) ==> jwKind[i] == old(jwKind[i]) && jwObj[i] == old(jwObj[i]) && jwOK[i] == old(jwOK[i])
